@@ -29,21 +29,22 @@ func (a *config) MergeSpoc(d deviceconf.Config) deviceconf.Config {
 				errlog.Abort("Must not redefine chain %q of table %q from rawdata",
 					cName, tName)
 			}
+			// Prepend rules from raw, but add rules marked with [APPEND]
+			// behind last non DROP line. Preserve order of rules from raw.
+			var prepend, appendL []rule
 			for _, ru := range bChain.rules {
-				i := 0
 				if ru.append {
-					// Append before last non DROP line.
-					i = len(aChain.rules)
-					for i > 0 {
-						if aChain.rules[i-1].pairs["-j"] == "DROP" {
-							i--
-						} else {
-							break
-						}
-					}
+					appendL = append(appendL, ru)
+				} else {
+					prepend = append(prepend, ru)
 				}
-				aChain.rules = slices.Insert(aChain.rules, i, ru)
 			}
+			i := len(aChain.rules)
+			for i > 0 && aChain.rules[i-1].pairs["-j"] == "DROP" {
+				i--
+			}
+			aChain.rules = slices.Concat(
+				prepend, aChain.rules[:i], appendL, aChain.rules[i:])
 		}
 	}
 	return a
